@@ -36,6 +36,7 @@ type (
 	SSlice struct{ X, Lo, Hi SExpr }
 	SCond  struct{ C, A, B SExpr }
 	SQuant struct {
+		Lambda bool // array comprehension: lambda k int :: e
 		Forall bool
 		Vars   []SBinder
 		Body   SExpr
@@ -74,6 +75,9 @@ func (e *SQuant) String() string {
 	q := "exists"
 	if e.Forall {
 		q = "forall"
+	}
+	if e.Lambda {
+		q = "lambda"
 	}
 	var b []string
 	for _, v := range e.Vars {
@@ -224,9 +228,9 @@ func (ps *sparser) expect(s string) {
 
 func (ps *sparser) expr() SExpr {
 	t := ps.peek()
-	if t.kind == "id" && (t.text == "forall" || t.text == "exists") {
+	if t.kind == "id" && (t.text == "forall" || t.text == "exists" || t.text == "lambda") {
 		ps.next()
-		q := &SQuant{Forall: t.text == "forall"}
+		q := &SQuant{Forall: t.text == "forall", Lambda: t.text == "lambda"}
 		for {
 			n := ps.next()
 			if n.kind != "id" {
@@ -322,7 +326,7 @@ var cmpOps = map[string]bool{"==": true, "!=": true, "<": true, "<=": true, ">":
 
 func (ps *sparser) cmp() SExpr {
 	t := ps.peek()
-	if t.kind == "id" && (t.text == "forall" || t.text == "exists") {
+	if t.kind == "id" && (t.text == "forall" || t.text == "exists" || t.text == "lambda") {
 		return ps.expr()
 	}
 	l := ps.add()
